@@ -104,8 +104,93 @@ def _cond(e):
     raise TranslateError("unsupported condition in the find_obj attribute filter: " + s)
 
 
+EXPECTED_WRAPPERS = {
+    "follow_loaded_models_scope_redirection_logic": '''def follow_loaded_models_scope_redirection_logic(obj, scope_redirection_logic):
+    lst = []
+    if scope_redirection_logic is not None:
+        lst = scope_redirection_logic(obj)
+        assert lst is not None, 'scope_redirection_logic must not return None'
+        if type(lst) is Postponed:
+            return lst
+    if hasattr(obj, '_tx_loaded_models'):
+        lst = lst + obj._tx_loaded_models
+    return lst''',
+    "FQNImportURI": '''class FQNImportURI(ImportURI):
+
+    def __init__(self, glob_args=None, search_path=None, importAs=False, importURI_converter=None, importURI_to_scope_name=None, scope_redirection_logic=None):
+        if importAs:
+
+            def my_scope_redirection_logic_def(obj):
+                return follow_loaded_models_scope_redirection_logic(obj, scope_redirection_logic)
+            my_scope_redirection_logic = my_scope_redirection_logic_def
+        else:
+            my_scope_redirection_logic = scope_redirection_logic
+        ImportURI.__init__(self, FQN(scope_redirection_logic=my_scope_redirection_logic), glob_args=glob_args, search_path=search_path, importAs=importAs, importURI_converter=importURI_converter, importURI_to_scope_name=importURI_to_scope_name)''',
+    "FQNGlobalRepo": '''class FQNGlobalRepo(GlobalRepo):
+
+    def __init__(self, filename_pattern=None, glob_args=None):
+        GlobalRepo.__init__(self, FQN(), filename_pattern, glob_args=glob_args)''',
+}
+PHASES = {None: "POwn", "model_repository.local_models": "PLocal", "model._tx_metamodel.builtin_models": "PBuiltin"}
+
+
+def _import_order(tree):
+    """ImportURI.__call__: where, and in which order, the wrapped provider is started."""
+    fn = find_func(tree, "__call__", cls="ImportURI")
+    src = ast.unparse(fn)
+    need("model = get_model(obj)" in src and "model_repository = model._tx_model_repository" in src,
+         "ImportURI.__call__: model / model_repository are not taken from the referring object")
+    order = []
+
+    def walk(stmts, loop):
+        for i, st in enumerate(stmts):
+            if isinstance(st, ast.Assign) and isinstance(st.value, ast.Call) and ast.unparse(st.value.func) == "self.scope_provider":
+                need(ast.unparse(st.targets[0]) == "ret" and len(st.value.args) == 3 and not st.value.keywords
+                     and [ast.unparse(a) for a in st.value.args[1:]] == ["attr", "obj_ref"], "unexpected provider call " + ast.unparse(st))
+                start = ast.unparse(st.value.args[0])
+                need((loop is None and start == "obj") or (loop is not None and start == "m"), "unexpected start object " + start)
+                nxt = stmts[i + 1] if i + 1 < len(stmts) else None
+                need(nxt is not None and ast.unparse(nxt) == "if ret:\n    return ret", "provider result is not returned when truthy")
+                order.append(PHASES[loop])
+            elif isinstance(st, ast.For):
+                need(ast.unparse(st.target) == "m" and ast.unparse(st.iter) in PHASES and not st.orelse and loop is None,
+                     "unexpected loop in ImportURI.__call__: " + ast.unparse(st.iter))
+                walk(st.body, ast.unparse(st.iter))
+            elif isinstance(st, ast.If):
+                if ast.unparse(st) == "if ret:\n    return ret":
+                    continue
+                need(ast.unparse(st.test) == "model._tx_metamodel.builtin_models" and not st.orelse, "unexpected condition " + ast.unparse(st.test))
+                walk(st.body, loop)
+            elif isinstance(st, ast.Try):
+                need(not st.orelse and not st.finalbody and all(isinstance(h.body[-1], ast.Raise) and h.body[-1].exc is None for h in st.handlers),
+                     "try statement in ImportURI.__call__ swallows or converts exceptions")
+                walk(st.body, loop)
+            elif isinstance(st, ast.Return):
+                need(ast.unparse(st) == "return None", "unexpected " + ast.unparse(st))
+            else:
+                need(not any(isinstance(n, ast.Call) and ast.unparse(n.func) == "self.scope_provider" for n in ast.walk(st)),
+                     "provider call in an unexpected statement: " + ast.unparse(st))
+    walk(fn.body, None)
+    need(isinstance(fn.body[-1], ast.Return) and ast.unparse(fn.body[-1]) == "return None", "ImportURI.__call__ does not end with return None")
+    need(len(order) == len(set(order)) and order, "a search phase occurs twice or none at all")
+    return order
+
+
+def _wrappers(tree):
+    for name, want in EXPECTED_WRAPPERS.items():
+        node = next((n for n in tree.body if isinstance(n, (ast.FunctionDef, ast.ClassDef)) and n.name == name), None)
+        need(node is not None, name + " not found")
+        node = copy.deepcopy(node)
+        _strip_docstrings(node)
+        if isinstance(node, ast.ClassDef) and node.body and isinstance(node.body[0], ast.Expr) and isinstance(node.body[0].value, ast.Constant):
+            node.body = node.body[1:]
+        got = ast.unparse(node)
+        need(got == want, "%s is not the transcribed shape:\n%s" % (name, got))
+
+
 def translate():
     tree, _ = parse_file("textx/scoping/providers.py")
+    order = _import_order(tree)
     fn = copy.deepcopy(find_func(tree, "__call__", cls="FQN"))
     _strip_docstrings(fn)
     comps = [n for n in ast.walk(fn) if isinstance(n, ast.ListComp)]
@@ -121,8 +206,11 @@ def translate():
     lines = ["From TxV Require Import Core.Base Model.FqnDefs.",
              "(* [a for a in parent.__dict__ if %s] *)" % " and ".join(ast.unparse(e) for e in ifs).replace("*)", "* )"),
              "Definition src_walked (x : attr) : bool :=",
-             "  (%s)%%bool." % cond]
+             "  (%s)%%bool." % cond,
+             "(* ImportURI.__call__: the wrapped provider is started at these objects, in this order *)",
+             "Definition import_order : list phase := [%s]." % "; ".join(order)]
     emit("SrcFqn", "\n".join(lines) + "\n")
+    _wrappers(tree)
     comp.generators[0].ifs = [ast.Name(id="FILTER", ctx=ast.Load())]
     got = ast.unparse(fn)
     if got != EXPECTED:
